@@ -31,6 +31,7 @@ type AvahiProvider struct {
 	manualShutdown  bool
 	setupSuccessful bool
 	listenerRunning bool
+	reconnecting    bool // a reconnect attempt is running, there must only be one at a time
 
 	mdnsServiceData *mdnsServiceData
 
@@ -61,9 +62,30 @@ func (a *AvahiProvider) Start(autoReconnect bool, cb api.MdnsResolveCB) bool {
 	a.mux.Lock()
 	defer a.mux.Unlock()
 
+	a.manualShutdown = false
+
+	return a.start(autoReconnect, cb)
+}
+
+// reconnect to the avahi daemon, unless the provider was shut down in the meantime
+//
+// returns if the connection was established and if reconnecting should be stopped
+func (a *AvahiProvider) restart(cb api.MdnsResolveCB) (success bool, stop bool) {
+	a.mux.Lock()
+	defer a.mux.Unlock()
+
+	// a shutdown may have been requested while waiting for the next attempt, do not undo it
+	if a.manualShutdown {
+		return false, true
+	}
+
+	return a.start(true, cb), false
+}
+
+// connect to the avahi daemon and start browsing, the mutex has to be locked
+func (a *AvahiProvider) start(autoReconnect bool, cb api.MdnsResolveCB) bool {
 	a.autoReconnect = autoReconnect
 	a.resolveCB = cb
-	a.manualShutdown = false
 
 	err := a.avServer.Setup(a.avahiCallback)
 	if err != nil {
@@ -215,28 +237,31 @@ func (a *AvahiProvider) Unannounce() {
 func (a *AvahiProvider) avahiCallback(event avahi.Event) {
 	a.mux.Lock()
 	// if there is a manual shutdown, we do not want to reconnect
-	if a.manualShutdown || !a.autoReconnect || event != avahi.Disconnected {
+	if a.manualShutdown || !a.autoReconnect || event != avahi.Disconnected || a.reconnecting {
 		a.mux.Unlock()
 		return
 	}
+	a.reconnecting = true
 
 	logging.Log().Debug("mdns: avahi - disconnected")
 
 	// the server was shutdown, set it to nil so we don't try to call free functions
 	// on shutting down a currently running resolve
 	cb := a.resolveCB
-	var serviceData *mdnsServiceData
-	if a.mdnsServiceData != nil {
-		serviceData = a.mdnsServiceData
-	}
 	a.mux.Unlock()
 
 	// try to reconnect until successull
-	go a.attemptReconnect(cb, serviceData)
+	go a.attemptReconnect(cb)
 }
 
 // attempt to reconnect to the avahi daemon endlessly
-func (a *AvahiProvider) attemptReconnect(cb api.MdnsResolveCB, serviceData *mdnsServiceData) {
+func (a *AvahiProvider) attemptReconnect(cb api.MdnsResolveCB) {
+	defer func() {
+		a.mux.Lock()
+		a.reconnecting = false
+		a.mux.Unlock()
+	}()
+
 	for {
 		a.mux.Lock()
 		isManualShutdown := a.manualShutdown
@@ -247,11 +272,21 @@ func (a *AvahiProvider) attemptReconnect(cb api.MdnsResolveCB, serviceData *mdns
 
 		<-time.After(time.Second)
 
-		if !a.Start(true, cb) {
+		success, stop := a.restart(cb)
+		if stop {
+			return
+		}
+		if !success {
 			continue
 		}
 
 		logging.Log().Debug("mdns: avahi - reconnected")
+
+		// announce what is to be announced now, not what was announced when the connection got lost:
+		// the service may have been announced with different data or unannounced in the meantime
+		a.mux.Lock()
+		serviceData := a.mdnsServiceData
+		a.mux.Unlock()
 
 		if serviceData != nil {
 			if err := a.Announce(serviceData.Name, serviceData.Port, serviceData.Txt); err != nil {
